@@ -131,28 +131,32 @@ impl<'a> Scanner<'a> {
                 let prefix = format!("{}:{}: ", filename.display(), line_number + 1);
                 msg.push_str(&prefix);
 
-                let mut context = unsafe { std::str::from_utf8_unchecked(line) };
+                // The line may be arbitrary bytes, so cut it as bytes (moving a
+                // cut back over at most one character's continuation bytes)
+                // and only then turn the excerpt into text.
+                fn back_to_char_start(line: &[u8], mut i: usize) -> usize {
+                    let mut steps = 0;
+                    while steps < 3 && i > 0 && i < line.len() && (line[i] & 0xC0) == 0x80 {
+                        i -= 1;
+                        steps += 1;
+                    }
+                    i
+                }
+                let mut context = line;
                 let mut col = err.ofs - ofs;
                 if col > 40 {
                     // Trim beginning of line to fit it on screen.
                     msg.push_str("...");
-                    let mut start = col - 20;
-                    while !context.is_char_boundary(start) {
-                        start -= 1;
-                    }
+                    let start = back_to_char_start(context, col - 20);
                     context = &context[start..];
                     col = 3 + (col - start);
                 }
                 if context.len() > 40 {
-                    let mut end = 40;
-                    while !context.is_char_boundary(end) {
-                        end -= 1;
-                    }
-                    context = &context[0..end];
-                    msg.push_str(context);
+                    let end = back_to_char_start(context, 40);
+                    msg.push_str(&String::from_utf8_lossy(&context[0..end]));
                     msg.push_str("...");
                 } else {
-                    msg.push_str(context);
+                    msg.push_str(&String::from_utf8_lossy(context));
                 }
                 msg.push('\n');
 
